@@ -12,6 +12,7 @@ import SmsVerif.Driver.Validity
 import SmsVerif.Driver.Text
 import SmsVerif.Driver.Batch
 import SmsVerif.Driver.Spec
+import SmsVerif.Driver.Own
 open SmsVerif SmsVerif.Driver
 
 def dispatch (line : String) : String :=
@@ -23,6 +24,8 @@ def dispatch (line : String) : String :=
   | "decalloc" :: toks => (handleDecAlloc toks).getD "bad-op"
   | ["pdus"] => handlePdus
   | ["specs"] => handleSpecs
+  | "own" :: toks => (handleOwn toks).getD "bad-op"
+  | "sched" :: toks => (handleSched toks).getD "bad-op"
   | "specenc" :: toks => (handleSpecEnc toks).getD "bad-op"
   | "batch" :: toks => (handleBatch toks).getD "bad-op"
   | "text" :: toks => (handleText toks).getD "bad-op"
